@@ -595,7 +595,7 @@ where
                 i = 0;
             }
 
-            if escape.is_some() || !pending[i].is_ascii_whitespace() {
+            if escape.is_some() || !is_separator(pending[i]) {
                 in_argument = true;
             }
             match (&escape, pending[i]) {
@@ -607,7 +607,7 @@ where
                 }
                 (None, c @ (b'"' | b'\'')) => escape = Some(Escape::Quote(c)),
                 (None, b'\\') => escape = Some(Escape::Slash),
-                (None, c) if c.is_ascii_whitespace() => {
+                (None, c) if is_separator(c) => {
                     if !result.is_empty() {
                         terminated_by_newline = c == b'\n';
                         break;
@@ -632,6 +632,12 @@ where
             },
         }))
     }
+}
+
+/// In default mode arguments are separated by blanks and newlines; other
+/// control characters (CR, FF, VT) belong to the argument.
+fn is_separator(c: u8) -> bool {
+    matches!(c, b' ' | b'\t' | b'\n')
 }
 
 struct ByteDelimitedArgumentReader<R: Read> {
